@@ -8,7 +8,7 @@ SPEC = {
     'level': 'exploration',
     'rule': ('operation sequences on the real Environment (schedule, pause, unpause, cancel, step, run; '
              'nested operations issued from inside event actions) checked online against the reference '
-             'queue model refs/evq.py: all sequences up to length L (5 quick / 6 thorough) over a 10-op '
+             'queue model refs/evq.py: all sequences up to length L (5 quick / 7 thorough) over a 10-op '
              'pause-centric alphabet after a prefix that moves the clock off zero, enumerated completely '
              'under the fifo tie policy, then random sequences of length 10-80 under every tie policy, plus generated production lines with dense fault '
              'scripts (maintenance pauses, failures cancel, restores resume) with the same queue model attached; '
@@ -41,7 +41,7 @@ def one(sh, ops, tie, tie_seed, exhaustive):
 
 
 def run(sh):
-    L = 5 if sh.tier == 'quick' else 6
+    L = 5 if sh.tier == 'quick' else 7
     nrand = 3000 if sh.tier == 'quick' else 100000
     k = 0
     for length in range(1, L + 1):
@@ -58,7 +58,7 @@ def run(sh):
         one(sh, ops, tie, rng.randrange(1 << 30), False)
     # whole lines: maintenance shutdowns pause, failures cancel, restores resume the machine's events
     from .. import engine_line
-    engine_line.run_profile(sh, 'C07', 'faults', 160 if sh.tier == 'quick' else 3200, ('queue',),
+    engine_line.run_profile(sh, 'C07', 'faults', 160 if sh.tier == 'quick' else 16000, ('queue',),
                             nontrivial=lambda f: f.get('shifted_resumes', 0) > 0, prefix='line_')
 
 
